@@ -76,9 +76,9 @@ MUTANTS = [
      "a waiting task does not trigger a new worker: dependent tasks deadlock"),
     ("c10-retire-fix-reverted", "C10", T, "                        and self._queue.empty()\n", "", "the racy retirement is back"),
     ("c11-join-fix-reverted", "C11", T, "        if not self._queue.unfinished_tasks:", "        if self._queue.empty():", "join() true while a task runs"),
-    ("c11-stop-without-sentinels", "C11", T, "                for _ in self._threads:\n                    self._queue.put(self._done_event, True, self._timeout)",
-     "                for _ in self._threads[:0]:\n                    self._queue.put(self._done_event, True, self._timeout)",
-     "stop() waits for idle timeouts only (still terminates) - control for liveness: slower, not wrong"),
+    ("c11-stop-without-sentinels", "C11", T, "        for _ in threads:\n            while any(thread.is_alive() for thread in threads):",
+     "        for _ in threads[:0]:\n            while any(thread.is_alive() for thread in threads):",
+     "stop() wakes nobody: it only ends when the idle timeouts expire (for ever with long / absent timeouts)"),
     ("c11-restart-keeps-stop-flag", "C11", T, "        # Clear the stop event\n        self._done_event.clear()\n", "        # Clear the stop event\n        if not self._threads:\n            self._done_event.clear()\n        self._threads = []\n",
      "control: equivalent restart logic"),
     ("c12-server_close-keeps-pool", "C12", S, "        SimpleJSONRPCServer.server_close(self)\n        self.__request_pool.stop()", "        SimpleJSONRPCServer.server_close(self)",
@@ -116,7 +116,14 @@ MUTANTS = [
     ("c17-any-scheme", "C17", J, "        if schema not in (\"http\", \"https\") or (use_unix and schema != \"http\"):", "        if not schema.startswith((\"http\", \"ws\")) or (use_unix and schema != \"http\"):", "ws:// accepted"),
     ("c17-unix-https-check-reverted", "C17", J, "        if schema not in (\"http\", \"https\") or (use_unix and schema != \"http\"):", "        if schema not in (\"http\", \"https\"):", "unix+https accepted again with a caller-supplied transport"),
     ("c03-late-conversion-check-reverted", "C03", S, "            jsonrpclib.jdumps(result, self.encoding)\n            return result", "            return result", "results refused by the encoder collapse the reply again"),
-    ("c02-nonfinite-id-check-reverted", "C02", S, "    if isinstance(rpcid, float) and (\n        rpcid != rpcid or rpcid in (float(\"inf\"), float(\"-inf\"))\n    ):", "    if False:", "ids beyond the double range echoed as Infinity again"),
+    ("c02-nonfinite-id-check-reverted", "C02", S, "    if not _is_finite(rpcid):", "    if False:", "ids beyond the double range echoed as Infinity again"),
+    ("c02-nonfinite-id-check-top-level-only", "C02", S, "    elif isinstance(value, (utils.ListType, utils.TupleType)):\n        return all(_is_finite(item) for item in value)", "    elif False:\n        return True", "numerals beyond the double range nested in a structured id are echoed again"),
+    ("c10-ctor-overflow-reverted", "C10", T, "        except OverflowError:\n            # Infinite value: clamp it like any other out-of-range value\n            min_threads = max_threads if min_threads > 0 else 0\n", "", "an infinite min_threads raises OverflowError again"),
+    ("c10-error-report-guard-reverted", "C10", T, "                        except Exception:\n                            # The error can't even be reported (e.g. odd\n                            # callable object): the thread must go on\n                            pass\n", "                        finally:\n                            pass\n", "a failing dict-backed callable kills its worker again"),
+    ("c05-noncallable-attribute-reverted", "C05", S, "                        if not callable(func):\n                            # A public attribute is not a method\n                            func = None\n", "                        pass\n", "data attributes answered -32602 again"),
+    ("c01-self-keyword-reverted", "C01", J, "    def __call__(*args, **kwargs):\n        \"\"\"\n        Sends an RPC request and returns the unmarshalled result\n        \"\"\"\n        # \"self\" can be the name of a keyword argument of the remote method\n        self, args = args[0], args[1:]\n", "    def __call__(self, *args, **kwargs):\n        \"\"\"\n        Sends an RPC request and returns the unmarshalled result\n        \"\"\"\n", "proxy.f(self=1) raises TypeError again"),
+    ("c07-alias-ignored-reverted", "C07", K, "            if local_class is obj.__class__:\n                json_class = local_name\n                break\n", "            pass\n", "local classes registered under a custom name are dumped with their own name again"),
+    ("c07-enum-nonscalar-fallback-reverted", "C07", K, "                if dump(member.value) == params[0]:", "                if False:", "enum members with tuple values cannot be loaded again"),
     ("c06-multicall-single-error-reverted", "C06", J, "        elif isinstance(responses, utils.DictType):\n            # The server answered the whole batch with a single object: this\n            # is the way errors concerning the batch itself are reported\n            check_for_errors(responses)\n", "", "MultiCall raises KeyError/TypeError for a whole-batch error object again"),
     ("c14-fault-forced-id-zero-reverted", "C14", J, "        if rpcid is not None and rpcid != \"\":\n            # 0 is a valid request ID\n            self.rpcid = rpcid\n\n        return dumps(", "        if rpcid:\n            self.rpcid = rpcid\n\n        return dumps(", "Fault.response(rpcid=0) answers id null again"),
     ("c07-string-slots-reverted", "C07", K, "        if isinstance(slots, utils.STRING_TYPES):\n            # A single slot can be declared with its name only\n            slots = (slots,)\n", "", "__slots__ = 'value' iterated by characters again"),
@@ -163,7 +170,7 @@ MUTANTS = [
 
 # controls: changes that do NOT break the property (equivalent or unobservable with the stdlib JSON backend): a check
 # that fires on one of these would be raising a false alarm
-CONTROLS = {"c01-kwargs-as-list", "c11-stop-without-sentinels", "c11-restart-keeps-stop-flag", "c19-no-drain",
+CONTROLS = {"c01-kwargs-as-list", "c11-restart-keeps-stop-flag", "c19-no-drain",
             "c12-request-enqueued-twice", "c17-length-from-text"}
 
 
